@@ -945,3 +945,62 @@ pub fn litmus_chain(s: &mut Src, p: &LitmusParams) -> Program {
     }
     wrap_main(s, threads, hops + 1, p.joins, p.late_spawn)
 }
+
+/// Programs over the harness's two loom thread-locals and two loom lazy statics, with SeqCst
+/// atomics in between as scheduling points.
+pub fn tls_lazy_prog(s: &mut Src, max_threads: usize, max_ops: usize, atomics: bool) -> Program {
+    let k = s.range(1, max_threads.max(1));
+    let nth = k + 1;
+    let mut threads: Vec<Vec<Op>> = vec![vec![]; nth];
+    let total = s.range(2.min(max_ops), max_ops);
+    let mut next_val = 1u8;
+    for _ in 0..total {
+        let t = s.pick(nth);
+        if threads[t].len() >= 4 {
+            continue;
+        }
+        let key = s.pick(2) as u8;
+        let op = match s.pick(if atomics { 8 } else { 6 }) {
+            0 => Op::TlsWith { k: key },
+            1 => Op::TlsBump { k: key },
+            2 => Op::TlsNested { k: key },
+            3 | 4 => Op::LazyGet { k: key },
+            5 => Op::LazyCellRead { k: key },
+            6 => Op::Load { a: 0, o: MO::Sc },
+            _ => {
+                next_val += 1;
+                Op::Store { a: 0, v: next_val, o: MO::Sc }
+            }
+        };
+        threads[t].push(op);
+    }
+    let join = s.chance(2, 3);
+    let late = s.chance(1, 2);
+    // spawns: before main's ops, or interleaved
+    let body = std::mem::take(&mut threads[0]);
+    let mut main = vec![];
+    let mut pos: Vec<usize> = (1..nth).map(|_| if late { s.pick(body.len() + 1) } else { 0 }).collect();
+    pos.sort();
+    let mut next = 1;
+    for (i, op) in body.into_iter().enumerate() {
+        while next < nth && pos[next - 1] <= i {
+            main.push(Op::Spawn { t: next as u8 });
+            next += 1;
+        }
+        main.push(op);
+    }
+    while next < nth {
+        main.push(Op::Spawn { t: next as u8 });
+        next += 1;
+    }
+    if join {
+        for t in 1..nth {
+            main.push(Op::Join { t: t as u8 });
+        }
+        if s.chance(1, 2) {
+            main.push(Op::LazyGet { k: s.pick(2) as u8 });
+        }
+    }
+    threads[0] = main;
+    Program { threads, rx_owner: 0, arc_owner: vec![] }
+}
